@@ -353,20 +353,19 @@ class Engine:
         pointers are a chain of integer inequalities; decided instantly and deterministically), then the full
         quantifier-free context with a generous limit.  `False` means "not shown impossible"."""
         lia = [h for h in st.pc if self._is_pure_lia(h)]
+        from .state import guarded_check
         s = z3.Solver()
-        s.set("timeout", 5000)
         s.add(*lia)
         s.add(cond)
-        if s.check() == z3.unsat:
+        if guarded_check(s, 5000) == z3.unsat:
             return True
         s = z3.Solver()
-        s.set("timeout", 5000)
         for a in self.global_axioms:
             if not self._has_quant(a):
                 s.add(a)
         s.add(*[h for h in st.pc if not self._has_quant(h)])
         s.add(cond)
-        return s.check() == z3.unsat
+        return guarded_check(s, 5000) == z3.unsat
 
     def _is_pure_lia(self, t):
         cache = self.__dict__.setdefault("_lia_cache", {})
@@ -395,14 +394,14 @@ class Engine:
 
     def _feasible(self, st, cond):
         s = z3.Solver()
-        s.set("timeout", self.feas_timeout)
         for a in self.global_axioms:
             if not self._has_quant(a):
                 s.add(a)
         # quantified assumptions (and axioms) are left out: a weaker context can only keep more paths (sound)
         s.add(*[h for h in st.pc if not self._has_quant(h)])
         s.add(cond)
-        r = s.check()
+        from .state import guarded_check
+        r = guarded_check(s, self.feas_timeout)
         return r != z3.unsat
 
     def _has_quant(self, t):
